@@ -313,6 +313,8 @@ pub fn specs(tier: Tier) -> Vec<GenSpec> {
             GenSpec { n: 4, max_edges: 5, max_mult: 2, n_len: 1, self_loops: true, mode: LenMode::Alphabet },
             GenSpec { n: 4, max_edges: 4, max_mult: 1, n_len: 2, self_loops: false, mode: LenMode::Metric },
             GenSpec { n: 5, max_edges: 5, max_mult: 1, n_len: 1, self_loops: false, mode: LenMode::PowersOfTwo },
+            // uneven geometry on a line: with weight factors above 1 vertices are re-opened after they have been expanded
+            GenSpec { n: 4, max_edges: 4, max_mult: 1, n_len: 3, self_loops: false, mode: LenMode::LineMetric },
         ],
         Tier::Thorough => vec![
             GenSpec { n: 2, max_edges: 6, max_mult: 2, n_len: 2, self_loops: true, mode: LenMode::Alphabet },
@@ -321,6 +323,8 @@ pub fn specs(tier: Tier) -> Vec<GenSpec> {
             GenSpec { n: 4, max_edges: 5, max_mult: 1, n_len: 2, self_loops: false, mode: LenMode::Metric },
             GenSpec { n: 4, max_edges: 5, max_mult: 2, n_len: 2, self_loops: false, mode: LenMode::Alphabet },
             GenSpec { n: 5, max_edges: 6, max_mult: 1, n_len: 1, self_loops: false, mode: LenMode::PowersOfTwo },
+            GenSpec { n: 4, max_edges: 5, max_mult: 1, n_len: 3, self_loops: false, mode: LenMode::LineMetric },
+            GenSpec { n: 5, max_edges: 5, max_mult: 1, n_len: 2, self_loops: false, mode: LenMode::LineMetric },
         ],
     }
 }
@@ -340,9 +344,22 @@ pub fn run(tier: Tier) -> i32 {
             st.sample(1, || json!({"net": net, "note": "every algorithm x direction x orientation x every ordered pair of distinct edges is run on it"}));
         }
     });
+    // re-opening sweep: five vertices and up to five metric edges under weighted A*: a vertex that was expanded is re-labelled
+    // through a cheaper way found later; its tree entry and those of its children must still chain to the origin
+    // (the uneven line, not the lattice: on the lattice an edge three times the straight line is never worth a detour)
+    let rspecs = vec![GenSpec { n: 5, max_edges: 5, max_mult: 1, n_len: 3, self_loops: false, mode: LenMode::LineMetric }];
+    let st2 = par_enumerate(&rspecs, |_spec, net, st| {
+        st.states += 1;
+        let w = World::distance(net.clone());
+        for algo in [Algo::AStar(Some(2.0)), Algo::AStar(Some(10.0))].iter() {
+            check_case(&w, algo, &Orient::Vertex { o: 0, d: Some(net.n - 1) }, false, st);
+        }
+    });
+    st.merge(st2);
     // Yen's algorithm can hang on this tree; its routes are put through the same clauses inside the sandbox of C13
     st.notes.insert("yens: route clauses of C01 are evaluated on Yen's routes by the sandboxed C13 check (signature yens.*/route_*)".into());
-    let desc: Vec<String> = specs.iter().map(|s| s.describe()).collect();
+    let mut desc: Vec<String> = specs.iter().map(|s| s.describe()).collect();
+    desc.extend(rspecs.iter().map(|s| format!("{} under A* weight factors 2/10 (re-opening sweep)", s.describe())));
     finish(
         &info,
         st,
